@@ -14,6 +14,17 @@ prop("C14", True,
      "Payload values are a fixed sequence (control flow does not depend on them); segment lengths up to 5 (8); io.ReadFull trusted; state key = reflection dump of the decoder's scalar fields + bytes consumed + bytes delivered.",
      "DESIGN.md section 6 C14")
 
+prop("C02", True,
+     "bounded-exhaustive differential model checking: every systemdict operator x every operand tuple from a boundary-value pool, plus explicit-state search over operator sequences, real interpreter vs reference machine in lock-step",
+     "Every operator/name of systemdict is applied to every operand tuple of arity <=2 over a 46-expression pool and arity 3 over an 18-expression pool (thorough: arity 3 over the full pool, arity 4 reduced), and all sequences of <=3 (thorough 4) macro operations from 6 start states are explored with canonical-state pruning; after every program/step the full interpreter state (operand stack, dictionary stack, all reachable containers including storage sharing) is compared with an independent PLRM reference machine, and error names are compared when the reference prescribes one. Exhaustive inside the pool and depth bounds.",
+     "Trusted: the reference machine psmodel and its documented restrictions/ambiguities (model/psmodel/RESTRICTIONS.md); 64-bit integers and float64 reals as implementation limits; state after an error is not compared; operands outside the pool are not reached.",
+     "DESIGN.md section 6 C02")
+prop("C03", True,
+     "bounded-exhaustive enumeration of program shapes (the choice-tree path is the program) run on the real interpreter and a reference machine, full state compared",
+     "All programs with <=3 (thorough 4) statements over 13 atoms and 18 control/definition constructs nested to depth 3 (4), one size more over a reduced alphabet, every way of running a body with a procedure literal in first/middle/last position, and every dictionary-stack depth 2..20 with a name defined at each level or pair of levels, are executed on the real interpreter and on an independent PLRM reference machine; final operand stack, dictionary stack, dictionaries and error names must agree. Exhaustive inside the size/depth bounds.",
+     "Trusted: the reference machine psmodel (RESTRICTIONS.md); programs that exceed the reference's step budget are skipped (C11 owns budgets); loop counts 0..3 only.",
+     "DESIGN.md section 6 C03")
+
 def main():
     checks, na = [], []
     props = [json.loads(l) for l in open(os.path.join(ROOT, "properties.jsonl"))]
